@@ -386,7 +386,8 @@ Proof.
   intros Hc. unfold step. destruct (step_op w o) as [w' r] eqn:Es. cbn [fst].
   assert (w' = fst (step_op w o)) as -> by (rewrite Es; reflexivity). clear Es r.
   destruct o as [c|j args|j fuel|j b]; simpl.
-  - destruct (znth (w_classes w) c); [|exact Hc]. cbn [fst].
+  - destruct (znth (w_classes w) c); [|exact Hc].
+    destruct (negb _); [exact Hc|]. cbn [fst].
     unfold class_of in *. cbn [w_insts w_classes].
     destruct (znth (w_insts w) i) as [x0|] eqn:E; [|discriminate].
     rewrite (znth_app_old _ _ _ _ E). exact Hc.
